@@ -116,11 +116,44 @@ theorem sliceToSlice_nonNest (lhs rhs : Node) (s : Stmt) (h : ctx.sliceToSlice l
     · cases h; cases he
     · cases h
 
+theorem castOrNest_inv (rec : Node → Node → Outcome (List Stmt)) (lhs cand : Node) (warns w' : List String)
+    (mw : Bool) (s : Stmt) (h : ctx.castOrNest rec lhs cand warns mw = .ok (some s, w')) : StmtInv rec lhs s := by
+  unfold BCtx.castOrNest at h
+  simp only at h
+  cases hc : ctx.castNode (lhs.exprType ctx.env) cand with
+  | error e => simp only [hc] at h; cases h
+  | panic p => simp only [hc] at h; cases h
+  | ok r =>
+    obtain ⟨c?, w⟩ := r
+    simp only [hc] at h
+    cases hm : (if mw = true then none else c?) with
+    | some c =>
+      simp only [hm] at h
+      cases h
+      exact ⟨rfl, fun l r i n body w he => by cases he⟩
+    | none =>
+      simp only [hm] at h
+      split at h
+      · cases hr : rec lhs cand with
+        | error e => simp only [hr] at h; cases h
+        | panic p => simp only [hr] at h; cases h
+        | ok body =>
+          simp only [hr] at h
+          split at h
+          · cases h
+          · rename_i hne
+            cases h
+            refine ⟨rfl, ?_⟩
+            intro l r i n body' w'' he
+            cases he
+            exact ⟨rfl, hr, by simpa using hne⟩
+      · cases h
+
 /-- whatever one candidate yields is a statement about the member it was tried for -/
 theorem tryCand_inv (rec : Node → Node → Outcome (List Stmt)) (lhs rhsStruct cand : Node) (warns w' : List String)
     (s : Stmt) (h : ctx.tryCand rec lhs rhsStruct warns cand = .ok (some s, w')) : StmtInv rec lhs s := by
   unfold BCtx.tryCand at h
-  simp only [bind, Outcome.bind, pure] at h
+  simp only at h
   split at h
   · cases h
   · cases hsl : (if ctx.env.isSliceType (lhs.exprType ctx.env) && ctx.env.isSliceType (cand.exprType ctx.env)
@@ -138,34 +171,12 @@ theorem tryCand_inv (rec : Node → Node → Outcome (List Stmt)) (lhs rhsStruct
         · cases hsl
       | none =>
         simp only at h
-        cases hc : ctx.castNode (lhs.exprType ctx.env) cand with
-        | error e => simp only [hc] at h; cases h
-        | panic p => simp only [hc] at h; cases h
-        | ok r =>
-          obtain ⟨c?, w⟩ := r
-          simp only [hc] at h
-          cases c? with
-          | some c =>
-            simp only at h
-            cases h
-            exact ⟨rfl, fun l r i n body w he => by cases he⟩
-          | none =>
-            simp only at h
-            split at h
-            · cases hr : rec lhs cand with
-              | error e => simp only [hr] at h; cases h
-              | panic p => simp only [hr] at h; cases h
-              | ok body =>
-                simp only [hr] at h
-                split at h
-                · cases h
-                · rename_i hne
-                  cases h
-                  refine ⟨rfl, ?_⟩
-                  intro l r i n body' w'' he
-                  cases he
-                  exact ⟨rfl, hr, by simpa using hne⟩
-            · cases h
+        cases hmw : ctx.memberwise lhs cand with
+        | error e => simp only [hmw] at h; cases h
+        | panic p => simp only [hmw] at h; cases h
+        | ok mw =>
+          simp only [hmw] at h
+          exact castOrNest_inv ctx rec lhs cand warns w' mw s h
 
 /-- what the pass state may hold -/
 def PassInv (rec : Node → Node → Outcome (List Stmt)) (lhs : Node) (st : BCtx.Pass) : Prop :=
